@@ -1,3 +1,196 @@
-//! C14 — not yet built
-use crate::ctx::Ctx;
-pub fn run(c: &mut Ctx) { c.notes.push("C14: not implemented".into()); }
+//! C14 — content streams survive encode and decode.
+use crate::codec::*;
+use crate::ctx::{guard, Ctx};
+use crate::gen::*;
+use crate::props::c01::{norm, same};
+use crate::rng::Rng;
+use lopdf::content::{Content, Operation};
+use lopdf::{Dictionary, Object, Stream, StringFormat};
+use serde_json::json;
+
+fn show_ops(ops: &[Operation]) -> String {
+    let mut s = ops.len().to_string();
+    for op in ops {
+        s.push_str(&format!(" {} {}", hex_tok(op.operator.as_bytes()), op.operands.len()));
+        for o in &op.operands { s.push(' '); push_obj(&mut s, o); }
+    }
+    s
+}
+
+const OPERATORS: &[&str] = &["q", "Q", "cm", "BT", "ET", "Tf", "Tj", "TJ", "'", "\"", "T*", "re", "f", "f*", "B*", "b*", "W*", "n", "S", "s", "m", "l", "c", "h",
+    "rg", "RG", "g", "G", "k", "K", "Do", "gs", "BDC", "EMC", "MP", "sh", "d", "w", "J", "j", "M", "i", "ri", "Td", "TD", "Tm", "Tc", "Tw", "Tz", "TL", "Tr", "Ts",
+    "cs", "CS", "sc", "SC", "scn", "SCN", "BX", "EX", "R", "obj", "x", "tr", "nu", "fa", "B", "b", "I", "E", "EI", "ID", "Zz*'\""];
+
+fn gen_operator(r: &mut Rng) -> String {
+    loop {
+        let s: String = if r.chance(5, 6) { r.pick(OPERATORS).to_string() } else {
+            let n = 1 + r.usize(4);
+            (0..n).map(|_| *r.pick(b"abcdefghijklmnopqrstuvwxyzABCDEFGHIJKLMNOPQRSTUVWXYZ*'\"") as char).collect()
+        };
+        // guard forced by the grammar (WFOps): an operator must not start with a keyword operand or BI
+        if s.starts_with("true") || s.starts_with("false") || s.starts_with("null") || s.starts_with("BI") { continue; }
+        return s;
+    }
+}
+/// operands are direct objects without references at the top level (content operands have no reference alternative)
+fn gen_operand(r: &mut Rng) -> Object {
+    loop {
+        let depth = r.usize(4);
+        let o = gen_obj(r, depth);
+        if matches!(o, Object::Reference(_)) { continue; }
+        return o;
+    }
+}
+
+fn gen_inline_image(r: &mut Rng, c: &mut Ctx) -> (Vec<u8>, Operation) {
+    // valid inline image: BI <entries> ID <data> EI ; every supported colour space and geometry
+    let cs: &[(&str, usize)] = &[("DeviceGray", 1), ("Gray", 1), ("DeviceRGB", 3), ("RGB", 3), ("DeviceCMYK", 4), ("CMYK", 4), ("DeviceRGBA", 4), ("RGBA", 4)];
+    let (name, nc) = *r.pick(cs);
+    let w = 1 + r.usize(9); let h = r.usize(5); let bpc = *r.pick(&[1usize, 2, 4, 8, 16]);
+    let stride = (w * nc * bpc + 7) / 8; let len = h * stride;
+    let mut data: Vec<u8> = r.bytes(len);
+    // the grammar skips ALL white space after ID: data must not start with a content-space byte (F-C14-c territory)
+    if let Some(b) = data.first_mut() { if b" \t\r\n".contains(b) { *b = b'x'; } }
+    let abbr = r.chance(1, 2);
+    let mut d = Dictionary::new();
+    d.set(if abbr { "W" } else { "Width" }, Object::Integer(w as i64));
+    d.set(if abbr { "H" } else { "Height" }, Object::Integer(h as i64));
+    d.set(if abbr { "BPC" } else { "BitsPerComponent" }, Object::Integer(bpc as i64));
+    d.set(if abbr { "CS" } else { "ColorSpace" }, Object::Name(name.as_bytes().to_vec()));
+    if r.chance(1, 3) { d.set("I", Object::Boolean(true)); }
+    c.count(&format!("inline.cs.{}", name));
+    let mut text = b"BI".to_vec();
+    text.extend_from_slice(*r.pick(&[&b" "[..], b"\n", b"\r\n", b"\t "]));
+    for (k, v) in d.iter() {
+        text.push(b'/'); text.extend_from_slice(k); text.push(b' ');
+        lopdf::verif_api::Writer::write_object(&mut text, v).unwrap();
+        text.extend_from_slice(*r.pick(&[&b" "[..], b"\n"]));
+    }
+    text.extend_from_slice(b"ID");
+    text.extend_from_slice(*r.pick(&[&b" "[..], b"\n", b"\r\n"]));
+    text.extend_from_slice(&data);
+    text.extend_from_slice(*r.pick(&[&b" "[..], b"\n", b""]));
+    text.extend_from_slice(b"EI");
+    text.extend_from_slice(*r.pick(&[&b" "[..], b"\n", b""]));
+    let st = Stream::new(d, data);
+    (text, Operation::new("BI", vec![Object::Stream(st)]))
+}
+
+fn dec_reply(bytes: &[u8]) -> Result<String, (String, String)> {
+    guard(|| match Content::decode(bytes) { Ok(c) => format!("ok {}", show_ops(&c.operations)), Err(_) => "err".into() })
+}
+
+fn ops_equal(a: &[Operation], b: &[Operation]) -> bool {
+    a.len() == b.len() && a.iter().zip(b).all(|(x, y)| x.operator == y.operator && x.operands.len() == y.operands.len()
+        && x.operands.iter().zip(&y.operands).all(|(p, q)| same(&norm(p), &norm(q))))
+}
+
+pub fn run(c: &mut Ctx) {
+    c.rule = "operation sequences over the documented operator alphabet (real PDF operators + random letter/*/'/\" strings, excluding the \
+guarded prefixes true/false/null/BI) with 0..5 operands of every direct kind nested to depth 3 and adversarial bytes in names and strings; \
+byte sweeps as string / name operand; valid inline images of every supported colour space (full and abbreviated keys), geometry and bit depth, \
+embedded between ordinary operations; decoder-only token soups. Non-trivial = at least one operand; distinct by request text.".into();
+    // ---- encode / decode round trip
+    let n = c.n(2500, 40000);
+    for i in 0..n {
+        let Some(mut r) = c.case("ops", i) else { continue };
+        let k = r.usize(6);
+        let ops: Vec<Operation> = (0..k).map(|_| { let m = r.usize(5); Operation::new(&gen_operator(&mut r), (0..m).map(|_| gen_operand(&mut r)).collect()) }).collect();
+        check_ops(c, &ops, i < 2);
+    }
+    // ---- byte sweep through operands
+    if let Some(mut r) = c.case("sweep", 0) {
+        let mut pairs: Vec<Vec<u8>> = (0..=255u8).map(|b| vec![b]).collect();
+        if c.quick() { for _ in 0..2048 { pairs.push(vec![r.byte(), r.byte()]); } }
+        else { for a in 0..=255u8 { for b in 0..=255u8 { pairs.push(vec![a, b]); } } }
+        for p in &pairs {
+            let ops = vec![Operation::new("Tj", vec![Object::String(p.clone(), StringFormat::Literal)]),
+                           Operation::new("gs", vec![Object::Name(p.clone()), Object::String(p.clone(), StringFormat::Hexadecimal)])];
+            c.evaluations += 1;
+            check_ops(c, &ops, false);
+        }
+        c.extra.insert("sweep_exhaustive_pairs".into(), json!(!c.quick()));
+    }
+    // ---- inline images: decode (correspondence + oracle), and decode -> encode -> decode
+    let n = c.n(600, 8000);
+    let mut reencode_fail = 0u64;
+    for i in 0..n {
+        let Some(mut r) = c.case("inline", i) else { continue };
+        let mut text = vec![]; let mut expect = vec![];
+        if r.chance(1, 2) { text.extend_from_slice(b"q 1 0 0 1 0 0 cm\n"); expect.push(Operation::new("q", vec![])); expect.push(Operation::new("cm", vec![1.into(), 0.into(), 0.into(), 1.into(), 0.into(), 0.into()])); }
+        let (t, op) = gen_inline_image(&mut r, c);
+        text.extend_from_slice(&t); expect.push(op);
+        if r.chance(1, 2) { text.extend_from_slice(b"Q"); expect.push(Operation::new("Q", vec![])); }
+        c.nontrivial(&hex(&text));
+        match dec_reply(&text) {
+            Ok(reply) => {
+                c.corr(format!("dec_content {}", hex_tok(&text)), reply);
+                match Content::decode(&text) {
+                    Ok(dec) => {
+                        if !ops_equal(&dec.operations, &expect) {
+                            c.oracle_fail("inline-decode", "inline image decoded to other operations than written", json!({"content": hex(&text), "decoded": show_ops(&dec.operations), "expected": show_ops(&expect)}));
+                        }
+                        // decode -> encode -> decode
+                        if let Ok(b) = dec.encode() {
+                            c.corr(format!("enc_content {}", show_ops(&dec.operations)), format!("ok {}", hex_tok(&b)));
+                            if let Ok(reply) = dec_reply(&b) { c.corr(format!("dec_content {}", hex_tok(&b)), reply); }
+                        }
+                        let again = dec.encode().ok().and_then(|b| Content::decode(&b).ok());
+                        let ok = matches!(&again, Some(a) if ops_equal(&a.operations, &dec.operations));
+                        if !ok { reencode_fail += 1; c.oracle_fail("inline-reencode", "decode -> encode -> decode of an inline image is not the identity", json!({"content": hex(&text)})); }
+                    }
+                    Err(_) => c.oracle_fail("inline-decode", "valid inline image rejected", json!({"content": hex(&text)})),
+                }
+            }
+            Err((site, msg)) => c.oracle_fail(&format!("panic@{}", site), &msg, json!({"content": hex(&text)})),
+        }
+    }
+    c.extra.insert("inline_reencode_failures".into(), json!(reencode_fail));
+    // regression witness of the repaired defect F-C14-a
+    if let Some(_) = c.case("witness", 0) {
+        let text = b"BI /W 2 /H 2 /BPC 8 /CS /RGB ID abcdefghijkl EI Q";
+        let dec = Content::decode(text).ok();
+        let again = dec.as_ref().and_then(|d| d.encode().ok()).and_then(|b| Content::decode(&b).ok());
+        let ok = matches!((&dec, &again), (Some(a), Some(b)) if ops_equal(&a.operations, &b.operations) && a.operations.len() == 2);
+        c.witness("F-C14-a", !ok, "decode -> encode -> decode of `BI /W 2 /H 2 /BPC 8 /CS /RGB ID abcdefghijkl EI Q` must be the identity");
+    }
+    // ---- decoder-only soups
+    const TOK: &[&[u8]] = &[b"1", b" ", b"\n", b"q", b"Q", b"BT", b"BI", b"ID", b"EI", b"/W 1", b"/H 1", b"/BPC 8", b"/CS /G", b"/CS /RGB", b"/F /X", b"(a)", b"<4>", b"[", b"]", b"<<", b">>",
+        b"%c\n", b"%", b"true", b"nullx", b"-", b".", b"5", b"0 0 R", b"Tj", b"'", b"\"", b"*", b"/N", b"\r", b"\t", b"/W -1", b"/H 99999999999", b"/W 9223372036854775807"];
+    let n = c.n(3000, 50000);
+    for i in 0..n {
+        let Some(mut r) = c.case("soup", i) else { continue };
+        let k = 1 + r.usize(12);
+        let mut inp = vec![];
+        for _ in 0..k { if r.chance(1, 10) { inp.push(special_byte(&mut r)); } else { let t: &[u8] = *r.pick(TOK); inp.extend_from_slice(t); if r.chance(1, 2) { inp.push(b' '); } } }
+        match dec_reply(&inp) {
+            Ok(reply) => { if reply.starts_with("ok") && !reply.starts_with("ok 0") { c.count("soup.decoded_some"); } c.corr(format!("dec_content {}", hex_tok(&inp)), reply); }
+            Err((site, _msg)) => { c.count("soup.panic"); c.corr(format!("dec_content {}", hex_tok(&inp)), "panic".into()); let _ = site; }
+        }
+    }
+}
+
+fn check_ops(c: &mut Ctx, ops: &[Operation], sample: bool) {
+    let content = Content { operations: ops.to_vec() };
+    let req = format!("enc_content {}", show_ops(ops));
+    if ops.iter().any(|o| !o.operands.is_empty()) { c.nontrivial(&req); }
+    match guard(|| content.encode()) {
+        Ok(Ok(bytes)) => {
+            c.corr(req, format!("ok {}", hex_tok(&bytes)));
+            match dec_reply(&bytes) {
+                Ok(reply) => c.corr(format!("dec_content {}", hex_tok(&bytes)), reply),
+                Err((site, msg)) => { c.oracle_fail(&format!("panic@{}", site), &msg, json!({"content": hex(&bytes)})); return; }
+            }
+            match Content::decode(&bytes) {
+                Ok(dec) => if !ops_equal(&dec.operations, ops) {
+                    c.oracle_fail("content-rt", "decoded operations differ from the encoded ones", json!({"ops": show_ops(ops), "content": hex(&bytes), "decoded": show_ops(&dec.operations)}));
+                },
+                Err(_) => c.oracle_fail("content-rt", "encoded content does not decode", json!({"ops": show_ops(ops), "content": hex(&bytes)})),
+            }
+            if sample { c.sample(json!({"ops": show_ops(ops), "content": String::from_utf8_lossy(&bytes).to_string()})); }
+            c.count("ops.cases");
+        }
+        Ok(Err(_)) => c.oracle_fail("encode-error", "Content::encode failed", json!({"ops": show_ops(ops)})),
+        Err((site, msg)) => c.oracle_fail(&format!("panic@{}", site), &msg, json!({"ops": show_ops(ops)})),
+    }
+}
